@@ -452,7 +452,18 @@ def gwl_record(ex, kind, fields):
     """one worklist record: the record type and its fields joined by ';'"""
     from .values import RecV
 
-    return RecV(kind, fields.concrete_items())
+    if fields.is_concrete_len():
+        return RecV(kind, fields.concrete_items())
+    # leading concrete fields + a tail of symbolic length
+    head = []
+    k = 0
+    for sg in fields.segs:
+        if isinstance(sg, Lit):
+            head.extend(sg.items)
+            k += 1
+        else:
+            break
+    return RecV(kind, head, ";", SeqV("list", fields.copy().segs[k:]))
 
 
 @spec
@@ -466,6 +477,10 @@ NS["strip"] = NS.pop("strip")
 @spec
 def sorted_ints(ex, xs):
     """the ascending rearrangement of a list of ints (spec: sorting network over the concrete length)"""
+    if isinstance(xs, lib.RangeDiffV):
+        xs = lib.range_diff_list(ex, xs)
+    if getattr(xs, "ascending", False):
+        return xs
     return lib.b_sorted(ex, xs)
 
 
@@ -1051,3 +1066,70 @@ def well_in_grid(ex, w, rows, cols):
 def well_col(ex, w):
     w = ops.to_abstract(w)
     return ops.lift_raw(w.c)
+
+
+# ----------------------------------------------------------------------------- R records (distribute)
+
+
+def _as_rec(rec):
+    from .values import RecV
+
+    if not isinstance(rec, RecV) or rec.kind != "R":
+        raise Unsupported("expected a spec-level R record (reagent_distribution contract)")
+    return rec
+
+
+@spec
+def self_is_evo(ex, wl):
+    return wl.cls == "EvoWorklist"
+
+
+@spec
+def implies_host(ex, a, b):
+    if isinstance(a, bool) and not a:
+        return True
+    return implies(ex, a, b)
+
+
+@spec
+def r_header_matches(ex, rec, src_name, dst_name, volume, liquid_class):
+    """the R record names the two racks, the per-well volume and the liquid class it was given"""
+    r = _as_rec(rec)
+    f = r.fields
+    return mk_bool(z3.And(ops.field_equal(term(f[0]), term(src_name)), ops.field_equal(term(f[5]), term(dst_name)),
+                          ops.field_equal(term(f[10]), term(lib.format_value(ex, volume, ""))), ops.field_equal(term(f[11]), term(liquid_class))))
+
+
+@spec
+def r_source_range(ex, rec, lo, hi):
+    r = _as_rec(rec)
+    return mk_bool(z3.And(ops.field_equal(term(r.fields[3]), term(fmt_int(ex, lo))), ops.field_equal(term(r.fields[4]), term(fmt_int(ex, hi)))))
+
+
+@spec
+def r_destinations_match(ex, rec, positions):
+    """decoding the R record (destination range minus the exclusion list) yields exactly the given set of positions"""
+    r = _as_rec(rec)
+    ps = positions.concrete_items()
+    lo, hi = r.fields[8], r.fields[9]
+    excl = r.tail if r.tail is not None else SeqV("list")
+    ne = ops.seq_len(excl)
+    p = z3.Int(ex.p.fresh_name("rp"))
+    j = z3.Int(ex.p.fresh_name("rj"))
+    # fields are istr(..) terms: read the numbers back through the injective printer
+    def num(f):
+        t = term(f)
+        if z3.is_app(t) and t.decl().kind() == z3.Z3_OP_UNINTERPRETED and t.decl().name() == "istr":
+            return t.children()[0]
+        if z3.is_string_value(t) and t.as_string().lstrip("-").isdigit():
+            return z3.IntVal(int(t.as_string()))
+        raise Unsupported("R record field is not a printed integer")
+
+    lo_t, hi_t = num(lo), num(hi)
+    if isinstance(ne, int) and ne == 0:
+        excluded = z3.BoolVal(False)
+    else:
+        ej = ops.seq_get(ex, excl, Sym(j, "int"))
+        excluded = z3.Exists([j], z3.And(j >= 0, j < term(ne, "int"), num(ej) == p))
+    requested = z3.Or(*[term(x, "int") == p for x in ps])
+    return mk_bool(z3.ForAll([p], z3.And(lo_t <= p, p <= hi_t, z3.Not(excluded)) == requested))
